@@ -7,7 +7,7 @@ from .net import Space, Unmodelled, TypeViolation
 from .sym import Facts
 
 
-def run_entry(model: Model, func_short: str, make_args, hooks=None, limit=300, presets=None) -> list[Outcome]:
+def run_entry(model: Model, func_short: str, make_args, hooks=None, limit=300, presets=None, driver=None) -> list[Outcome]:
     f = model.func(func_short)
     ex = Explorer(limit=limit, presets=presets)
     outcomes = []
@@ -16,6 +16,8 @@ def run_entry(model: Model, func_short: str, make_args, hooks=None, limit=300, p
         facts = Facts()
         sp = Space(facts)
         it = Interp(model, sp, trail, hooks or {})
+        if driver is not None:
+            return it, driver(it, model)
         recv, args, kwargs = make_args(it)
         val = it.call_function(f, args, kwargs, recv=recv)
         return it, val
